@@ -44,6 +44,17 @@ def intended(line, segs):
     return d.get("c1"), d.get("c2"), d.get("c3")
 
 
+def extraction_ok(got, exp):
+    """real parse_line result vs the grammar's intended (addr, first token, second token)"""
+    if got[0] != "INS" or exp is None:
+        return False
+    if got[1] != exp[0] or not same_mnemonic(got[2], exp[1]):
+        return False
+    if exp[2] is None and got[3] != []:
+        return False  # a line without a second token has no operands, whatever presentation follows
+    return True
+
+
 def same_mnemonic(got, tok1):
     # the parser spells objdump's '(bad)' as 'bad' (documented special case, tested by the repo)
     return got == tok1 or (tok1 == "(bad)" and got == "bad")
@@ -110,7 +121,7 @@ def check_instruction_class(ctx, prop, cls_name, segs, feature, lemmas):
     def confirm(line, why, key):
         exp = intended(line, segs)
         got = real_parse(line)
-        ok = got[0] == "INS" and exp is not None and got[1] == exp[0] and same_mnemonic(got[2], exp[1])
+        ok = extraction_ok(got, exp)
         run.sample({"line": line, "expected(addr,tok1,tok2)": exp, "real_parse": got, "lemma": why})
         if exp is None:
             run.harness_error(f"{cls_name}: witness {line!r} is outside the grammar's own oracle")
@@ -134,7 +145,7 @@ def check_instruction_class(ctx, prop, cls_name, segs, feature, lemmas):
         for line in mixed:
             if line is not None:
                 got, exp = real_parse(line), intended(line, segs)
-                if not (got[0] == "INS" and exp and got[1] == exp[0] and same_mnemonic(got[2], exp[1])):
+                if not extraction_ok(got, exp):
                     confirm(line, "ACCEPT", f"{feature}/ACCEPT/-")
                     return
         run.harness_error(f"{cls_name}: class is split between cascade steps at {step.method}; witnesses {mixed} parse as intended")
@@ -260,7 +271,7 @@ def data16_probe(ctx):
                 continue
             got = real_parse(line)
             run.count("traces_validated_against_impl")
-            ok = got[0] == "INS" and got[1] == exp[0] and same_mnemonic(got[2], exp[1])
+            ok = extraction_ok(got, exp)
             if not ok:
                 run.count("disagreements_replayed")
                 run.failure(f"data16/{cname}", f"data16 line {line!r}: expected addr={exp[0]!r} mnemonic={exp[1]!r}, real parse -> {got}", {"kind": "lx", "line": line, "segs": segs, "lemma": "DATA16"})
@@ -340,7 +351,7 @@ def sample_validation(run, prop):
                 continue
             got = real_parse(line)
             run.count("traces_validated_against_impl")
-            ok = got[0] == "INS" and got[1] == exp[0] and same_mnemonic(got[2], exp[1])
+            ok = extraction_ok(got, exp)
             sepfree = got[0] != "INS" or not any(x in fld for fld in [got[1], got[2]] + list(got[3]) for x in (",", "|", "::"))
             if not ok:
                 run.count("disagreements_replayed")
@@ -542,5 +553,4 @@ def replay(rec):
         return 1 if got[0] == "INS" and any(x in got[2] for x in (",", "|", "::")) else 0
     if lemma == "SEPFREE-ANY":
         return 1 if got[0] == "INS" and any(x in f for f in [got[1], got[2]] + list(got[3]) for x in (",", "|", "::")) else 0
-    ok = got[0] == "INS" and exp is not None and got[1] == exp[0] and same_mnemonic(got[2], exp[1])
-    return 0 if ok else 1
+    return 0 if extraction_ok(got, exp) else 1
